@@ -122,6 +122,19 @@ class State(object):
         elif not v:
             raise PathEnd("assumption false")
 
+    def forced_int(self, v):
+        """the value of a symbolic int if the path condition forces a single one, else None (no path split)"""
+        if not isinstance(v, SymInt):
+            return v if isinstance(v, int) else None
+        if self.solver.check() != z3.sat:
+            return None
+        k = self.solver.model().eval(v.e, model_completion=True)
+        if not z3.is_int_value(k):
+            return None
+        if self.solver.check(v.e != k) == z3.unsat:
+            return k.as_long()
+        return None
+
     def prune(self):
         """end the path if its condition is unsatisfiable"""
         if self.pos >= len(self.trace) and self.solver.check() == z3.unsat:
